@@ -61,4 +61,73 @@ TEXT = {
     },
 }
 
+TEXT.update({
+    "C04": {
+        "engine": "rapid-wire",
+        "technique": "model-based stateful testing (rapid) against a harness P4Runtime server with specification write semantics; oracle = denotation of the model up to a bijection on agent-chosen identifiers",
+        "level_text": "Histories of establishments (shared gNBs and application filters, F-TEID given or CHOOSE, QER shapes none/[app]/[app,session]), Update FAR (forward<->buffer<->drop, new TEID/peer), Update QER and deletions run on a fresh UP4 agent and switch per case under three slice/TC/QFI-map configurations. After every accepted request the switch state must be the image: exactly the two interfaces entries, one sessions entry per distinct key, terminations per (UE, application) with drop/forward/TEID/QFI/TC following FAR and QER, a bijection between distinct filters and applications entries (ids 1..254, priority ordered as precedence) and between distinct GTP peers and tunnel_peers entries (ids 2..254), counters exclusive, and configured meter cells only for live QERs.",
+        "level_note": WIRE_NOTE + " Envelope: every uplink PDR has a downlink PDR in its session, one FAR for all downlink PDRs of a session, precedence <= 65534. Kill/restart is covered by the restart unit when present in checks_table.py.",
+    },
+    "C05": {
+        "engine": "rapid-wire",
+        "technique": "stateful property-based testing (rapid) over histories x endings with table-image, gauge and pool-occupancy (build-tag hook) oracles, plus black-box pool cycling",
+        "level_text": "Fresh agent per case on BESS or UP4 with UE-IP allocation on a /29 or /30 pool: a history of accepted and rejected establishments/modifications (rejected after allocation, first-PDR rejection, all PDRs removed, half-way rejection) is followed by one of five endings (Session Deletion, Association Release, Session Report Response 'context not found', silence past read_timeout, unanswered heartbeats) and then pool-size+2 attach/detach cycles. After the ending and after the cycles: tables hold the image of the live sessions only, pfcp_sessions equals the number of live sessions, UE IP / F-TEID / UP4 counter, meter, tunnel-peer and application pools hold exactly what live sessions hold, ended sessions are unknown.",
+        "level_note": WIRE_NOTE + " Pool occupancy is read through the add-only hook; the attach/detach cycles check the same black-box.",
+    },
+    "C07": {
+        "engine": "rapid-wire",
+        "technique": "property-based testing with adversarial injected random sources and cursor placement through build-tag hooks; model-based check of the F-TEID generator incl. concurrent allocation under -race",
+        "level_text": "Generator unit: allocate/free sequences with the cursor placed near 2^32 (ids non-zero, never one that is held, IsAllocated consistent), concurrent allocators under the race detector. Wire unit: establishment histories where the association's random source is replaced by constant / zero / zeros-then-fresh / 'collide with live SEIDs for r draws' sources with r around the retry limit and the TEID cursor near the wrap: accepted sessions get a non-zero SEID different from all live ones or the request is rejected, chosen TEIDs are non-zero and unique, and the reported F-SEID/F-TEIDs are those in the harness BESS tables.",
+        "level_note": WIRE_NOTE + " The all-2^32-TEIDs-used branch is unreachable in test time.",
+    },
+    "C10": {
+        "engine": "rapid-wire",
+        "technique": "randomised schedule exploration (rapid-generated triggers with jitter around one instant) of the real agent under the Go race detector, with a delete-exactly-once oracle over the datapath command log",
+        "level_text": "One fresh agent per case with 0-4 associations of 0-3 sessions; every association gets a trigger {none, Association Release (optionally twice), silence past the 1 s read timeout, unanswered heartbeats} aimed at one instant with 0-30 ms jitter, optionally with a session request in flight, optionally with Stop() at that instant. Oracle: no panic, race report or deadlock (process death is attributed by the driver), Stop() returns within 15 s, every session of an ended association is deleted from the datapath exactly once and is unknown afterwards, the same peer can associate afresh, other associations keep their sessions and answer.",
+        "level_note": "The harness does not own the Go scheduler: coincidences are sampled, a window narrower than the wake-up jitter can be missed. A failure is reported with the generated case; schedule-dependent failures may need several replays.",
+    },
+    "C11": {
+        "engine": "rapid-wire",
+        "technique": "concurrent stream generation (rapid) under the Go race detector with per-peer sequential-model oracles and a final union-of-images oracle",
+        "level_text": "2-8 scripted control-plane peers run own establish / Update FAR / delete streams at the same time against a fresh agent on BESS or UP4 (shared gNBs and filters), with generated pacing and 0-2 ms random datapath service delays. No race report; every peer sees exactly the responses of its own sequential model; the final tables equal the union of the per-peer images; after concurrent deletion of everything the tables are empty and all pool counters are back to start-up values.",
+        "level_note": "Schedules are sampled, not enumerated. Trusts the Go race detector.",
+    },
+    "C12": {
+        "engine": "rapid-wire",
+        "technique": "fault enumeration over the position of the answered transmission plus generated loss/duplicate/wrong-sequence scripts, with kernel receive timestamps and one-sided timing assertions",
+        "level_text": "Heartbeats: for N in 1..4 the scripted peer answers exactly the k-th transmission for every k = 1..N+1, or none, plus generated multi-round scripts with duplicated and wrong-sequence responses: <= 1+N transmissions with identical bytes, spacing >= resp_timeout - 2 ms, no transmission later than one resp_timeout after the answer, association alive iff answered, sessions removed when unanswered. Peer heartbeats answered before and after association with one Recovery Time Stamp equal to the setup response's and postponing the agent's own heartbeat; association accepted iff a datapath transport connection is up; FTUP/UEIP/EMPU feature bits per configuration in accepted, rejected and agent-originated messages; agent-initiated association retransmission with the peer bound to :8805.",
+        "level_note": "Only one-sided timing facts are asserted; an answer that the harness itself sent late makes the liveness outcome inconclusive and is tolerated (labelled). The UP4 10 s reconnect sleep is not crossed.",
+    },
+    "C13": {
+        "engine": "rapid-wire",
+        "technique": "property-based testing of the wire path (unixpacket notify socket -> Session Report Request) and of the rate limiter with bracketed timestamps",
+        "level_text": "Wire: fresh BESS agent with enable_notify_bess and a harness unixpacket listener; sessions of kinds BUFF|NOCP, BUFF, FORW, DROP, no downlink PDR; generated bursts of F-SEID reports over known, unknown and zero F-SEIDs; exactly one Session Report Request (DLDR, downlink PDR of the session, CP SEID in the header, fresh sequence number) per notifying session, none otherwise. Unit: the notifier with a 60 ms interval and generated call times: first report forwarded, two forwarded notifications at least an interval apart, a report at least an interval after the last forwarded one is forwarded.",
+        "level_note": "One association (the statement says so). The hard-coded 20 s interval is not crossed on the wire.",
+    },
+    "C14": {
+        "engine": "rapid-wire",
+        "technique": "stateful property-based testing with packet decoding (gopacket) of everything written to the end-marker socket and a global event order between datapath writes and packets",
+        "level_text": "Sessions with 1-3 downlink FARs; modifications with 1-3 Update FARs each (new tunnel, buffer, drop; SNDEM set, clear, absent; unknown FAR ids; flagged Create FAR), end markers enabled and disabled. Exactly one GTP-U End Marker (type 254, ports 2152) per flagged applied update, addressed to the tunnel the rule used before, sourced from the access address, after the farLookup add of that rule; none otherwise.",
+        "level_note": WIRE_NOTE + " A flagged update of a rule that had no tunnel before is not asserted. UP4 PacketOut is exercised by C01 (wedge) only.",
+    },
+    "C15": {
+        "engine": "rapid-wire",
+        "technique": "exhaustive fault enumeration over the failing Write position (harness P4Runtime server fault plan) plus random multi-fault plans, with an identifier-exclusivity oracle over the switch state",
+        "level_text": "On a fresh UP4 agent whose switch declares small meter/counter arrays: two sessions sharing gNB and filter, then establishment / Update FAR modification / deletion with the k-th Write RPC failing for every k up to the fault-free count and each error code, optionally followed by deleting the sharing session, then further sessions. No counter cell, application/session meter cell, tunnel-peer id or application id is referenced by two live owners, none denotes another object than its owner asked for, no object is removed while a live session references it, no pool exceeds its start-up size, and an establishment or modification with a failed write is rejected.",
+        "level_note": WIRE_NOTE + " ALREADY_EXISTS is tolerated by design and not injected. Leaks after failed requests belong to C05.",
+    },
+    "C16": {
+        "engine": "rapid-wire",
+        "technique": "property-based testing over the full numeric input domain with an always-on P4Info conformance validator inside the harness P4Runtime server; golden comparison and determinism check for the constants generator",
+        "level_text": "Every Write the agent issues (start-up, sessions with precedence 0..65535, arbitrary addresses/TEIDs/ports/ranges/protocols, QFI 0-63, slice 0-15, TC 0-3, Update FAR, deletion, slice configuration over REST) is validated against the served P4Info exactly as the statement lists. The built generator regenerates the constants from the shipped P4Info twice (identical) and the gofmt-ed result equals internal/p4constants/p4constants.go; 300+ generated P4Info documents are fed twice each (determinism).",
+        "level_note": "The validator checks the statement's conditions only (no canonical-bytes rule).",
+    },
+    "C20": {
+        "engine": "hypothesis-c20",
+        "technique": "Hypothesis RuleBasedStateMachine (model-based) over the Python route controller with a recording BESS stand-in; oracle = module graph vs kernel model",
+        "level_text": "Kernel events RTM_NEWROUTE / RTM_DELROUTE / neighbour resolution over 2 managed + 1 unmanaged interface, 6 prefixes and 3 next hops per interface are delivered through the handlers the controller registers; after every step the graph rebuilt from the BESS stand-in must mirror the kernel model: route installed iff present and next hop resolved (all waiting routes), one gate and one Update module (right MAC, linked to Merge) per live next hop, module exists iff used, gates pairwise distinct.",
+        "level_note": "pyroute2, pybess and scapy are stubs; the BESS stand-in refuses what bessd refuses (deleting missing routes/modules, connecting an occupied gate). time.sleep is patched out.",
+    },
+})
+
 NA = {}
